@@ -2054,3 +2054,222 @@ func E3ArcAngleFrame(c *core.Ctx, r *core.Report) {
 	r.Count("E3.polar-placements-of-arc-angles", n)
 	r.Floor("E3.polar-placements-of-arc-angles", 1)
 }
+
+// E3ArcExtent: the half extents of a rotated ellipse used by Path.Bounds.
+func E3ArcExtent(c *core.Ctx, r *core.Report) {
+	r.Rule("E3.arc-extent", "Path.Bounds, arc case: x(θ) = cx + (rx·cosφ)·cosθ − (ry·sinφ)·sinθ and y(θ) = cy + (rx·sinφ)·cosθ + (ry·cosφ)·sinθ, so the extreme points lie at cx ± √(rx²cos²φ + ry²sin²φ) and cy ± √(rx²sin²φ + ry²cos²φ): the Euclidean length of each axis' coefficient pair. Every quantity folded into a side of the box under an angleBetween test is the centre coordinate of that axis plus or minus a local whose definition is math.Sqrt of exactly that polynomial (or math.Hypot of the two coefficients) — decided by expanding the argument to polynomial normal form over rx, ry, sinφ, cosφ. The 1-norm (rx·|cosφ| + ry·|sinφ|) bounds the rotated rectangle instead and is too wide for every oblique rotation with rx≠ry; an extent taken from the ellipse's own position function at the extreme angle is accepted as the other idiom")
+	p := c.MustPkg("")
+	info := p.TypesInfo
+	fd := core.MustFuncDecl(p, "Path.Bounds")
+	r.Func("canvas.Path.Bounds")
+	accs, ok := rectAccs(p, fd)
+	if !ok {
+		panic(core.Infra("Bounds accumulators not found"))
+	}
+	n := 0
+	for _, cc := range cmdSwitchClauses(p, fd) {
+		if !hasCallTo(info, cc, "ellipseToCenter") {
+			continue
+		}
+		label := core.CaseLabel(info, cc)
+		// the symbols: rx, ry, phi are arguments 2..4 of ellipseToCenter, cx, cy its results 0 and 1
+		var rx, ry, phi, cx, cy types.Object
+		for _, s := range cc.Body {
+			as, ok := s.(*ast.AssignStmt)
+			if !ok || len(as.Rhs) != 1 {
+				continue
+			}
+			call, ok := core.Unparen(as.Rhs[0]).(*ast.CallExpr)
+			if !ok {
+				continue
+			}
+			if f := core.CalleeOf(info, call); f == nil || f.Name() != "ellipseToCenter" || len(call.Args) < 5 || len(as.Lhs) < 2 {
+				continue
+			}
+			obj := func(e ast.Expr) types.Object {
+				if id, ok := core.Unparen(e).(*ast.Ident); ok {
+					return core.ObjOf(info, id)
+				}
+				return nil
+			}
+			rx, ry, phi = obj(call.Args[2]), obj(call.Args[3]), obj(call.Args[4])
+			cx, cy = obj(as.Lhs[0]), obj(as.Lhs[1])
+		}
+		if rx == nil || ry == nil || phi == nil || cx == nil || cy == nil {
+			r.Fail("E3.arc-extent", "canvas.Path.Bounds|"+label+"|symbols", c.Pos(cc.Pos()), "radii, rotation and centre of the ellipseToCenter call are not plain locals")
+			continue
+		}
+		var sinO, cosO types.Object
+		for _, s := range cc.Body {
+			if as, ok := s.(*ast.AssignStmt); ok && len(as.Lhs) == 2 && len(as.Rhs) == 1 {
+				if name, call := core.MathFunc(info, as.Rhs[0]); name == "Sincos" && len(call.Args) == 1 {
+					if a, ok := core.Unparen(call.Args[0]).(*ast.Ident); ok && core.ObjOf(info, a) == phi {
+						if a, ok := as.Lhs[0].(*ast.Ident); ok {
+							sinO = core.ObjOf(info, a)
+						}
+						if b, ok := as.Lhs[1].(*ast.Ident); ok {
+							cosO = core.ObjOf(info, b)
+						}
+					}
+				}
+			}
+		}
+		sym := func(e ast.Expr) string {
+			switch x := e.(type) {
+			case *ast.Ident:
+				switch core.ObjOf(info, x) {
+				case rx:
+					return "rx"
+				case ry:
+					return "ry"
+				case sinO:
+					if sinO != nil {
+						return "s"
+					}
+				case cosO:
+					if cosO != nil {
+						return "c"
+					}
+				}
+			case *ast.CallExpr:
+				if name, call := core.MathFunc(info, x); (name == "Sin" || name == "Cos") && len(call.Args) == 1 {
+					if a, ok := core.Unparen(call.Args[0]).(*ast.Ident); ok && core.ObjOf(info, a) == phi {
+						if name == "Sin" {
+							return "s"
+						}
+						return "c"
+					}
+				}
+			}
+			return ""
+		}
+		want := [2]poly{{"c*c*rx*rx": 1, "ry*ry*s*s": 1}, {"rx*rx*s*s": 1, "c*c*ry*ry": 1}}
+		defs := singleDefs(info, cc)
+		delete(defs, rx)
+		delete(defs, ry)
+		ordinal := map[int]int{}
+		for _, s := range cc.Body {
+			is, ok := s.(*ast.IfStmt)
+			if !ok {
+				continue
+			}
+			guard := false
+			ast.Inspect(is.Cond, func(m ast.Node) bool {
+				if call, ok := m.(*ast.CallExpr); ok {
+					if f := core.CalleeOf(info, call); f != nil && f.Name() == "angleBetween" {
+						guard = true
+					}
+				}
+				return true
+			})
+			if !guard {
+				continue
+			}
+			ast.Inspect(is.Body, func(m ast.Node) bool {
+				as, ok := m.(*ast.AssignStmt)
+				if !ok || len(as.Lhs) != 1 || len(as.Rhs) != 1 {
+					return true
+				}
+				id, ok := as.Lhs[0].(*ast.Ident)
+				if !ok {
+					return true
+				}
+				side := -1
+				for i, a := range accs {
+					if a == core.ObjOf(info, id) {
+						side = i
+					}
+				}
+				name, call := core.MathFunc(info, as.Rhs[0])
+				if side < 0 || (name != "Min" && name != "Max") || len(call.Args) != 2 {
+					return true
+				}
+				axis := side % 2
+				sides := [4]string{"low X", "low Y", "high X", "high Y"}
+				ordinal[side]++
+				key := fmt.Sprintf("canvas.Path.Bounds|%s|extent folded into the %s side", label, sides[side])
+				if ordinal[side] > 1 {
+					key += fmt.Sprintf(" #%d", ordinal[side])
+				}
+				n++
+				// the operand that is not the accumulator
+				var operand ast.Expr
+				for _, a := range call.Args {
+					if aid, ok := core.Unparen(a).(*ast.Ident); ok && core.ObjOf(info, aid) == accs[side] {
+						continue
+					}
+					operand = core.Unparen(a)
+				}
+				if operand == nil {
+					r.Fail("E3.arc-extent", key, c.Pos(as.Pos()), "the fold has no operand besides the accumulator")
+					return true
+				}
+				// idiom 2: a coordinate of the ellipse's position function
+				viaPos := false
+				ast.Inspect(operand, func(k ast.Node) bool {
+					if id, ok := k.(*ast.Ident); ok {
+						if d, ok := defs[core.ObjOf(info, id)]; ok {
+							if call, ok := core.Unparen(d).(*ast.CallExpr); ok {
+								if f := core.CalleeOf(info, call); f != nil && f.Name() == "EllipsePos" {
+									viaPos = true
+								}
+							}
+						}
+					}
+					if call, ok := k.(*ast.CallExpr); ok {
+						if f := core.CalleeOf(info, call); f != nil && f.Name() == "EllipsePos" {
+							viaPos = true
+						}
+					}
+					return true
+				})
+				if viaPos {
+					r.OK("E3.arc-extent", key, c.Pos(as.Pos()), "taken from EllipsePos at the extreme angle")
+					return true
+				}
+				be, ok := operand.(*ast.BinaryExpr)
+				centre := [2]types.Object{cx, cy}[axis]
+				var ext ast.Expr
+				if ok && (be.Op == token.ADD || be.Op == token.SUB) {
+					if cid, ok := core.Unparen(be.X).(*ast.Ident); ok && core.ObjOf(info, cid) == centre {
+						ext = core.Unparen(be.Y)
+					} else if cid, ok := core.Unparen(be.Y).(*ast.Ident); ok && core.ObjOf(info, cid) == centre && be.Op == token.ADD {
+						ext = core.Unparen(be.X)
+					}
+				}
+				if ext == nil {
+					r.Fail("E3.arc-extent", key, c.Pos(as.Pos()), fmt.Sprintf("the folded quantity %s is not the centre coordinate of the %s axis plus or minus a half extent", types.ExprString(operand), []string{"X", "Y"}[axis]))
+					return true
+				}
+				if id, ok := ext.(*ast.Ident); ok {
+					if d, ok := defs[core.ObjOf(info, id)]; ok {
+						ext = core.Unparen(d)
+					}
+				}
+				var got poly
+				decided := false
+				switch name, call := core.MathFunc(info, ext); {
+				case name == "Sqrt" && len(call.Args) == 1:
+					got, decided = polyOf(info, call.Args[0], sym, defs)
+				case name == "Hypot" && len(call.Args) == 2:
+					a, ok1 := polyOf(info, call.Args[0], sym, defs)
+					b, ok2 := polyOf(info, call.Args[1], sym, defs)
+					if ok1 && ok2 {
+						got, decided = polyAdd(polyMul(a, a), polyMul(b, b), 1), true
+					}
+				}
+				switch {
+				case !decided:
+					r.Fail("E3.arc-extent", key, c.Pos(ext.Pos()), fmt.Sprintf("the half extent %s is not the Euclidean length (math.Sqrt of a sum of squares, or math.Hypot) of the axis' two coefficients: want √(%s)", types.ExprString(ext), want[axis]))
+				case !polyEqual(got, want[axis]):
+					r.Fail("E3.arc-extent", key, c.Pos(ext.Pos()), fmt.Sprintf("the half extent is √(%s), want √(%s) for the %s axis", got, want[axis], []string{"X", "Y"}[axis]))
+				default:
+					r.OK("E3.arc-extent", key, c.Pos(as.Pos()), "√("+got.String()+")")
+				}
+				return true
+			})
+		}
+	}
+	r.Count("E3.arc-extent-folds", n)
+	r.Floor("E3.arc-extent-folds", 4)
+}
